@@ -1,7 +1,215 @@
 package main
 
 // Structural obligations decided on the SSA directly (no solver): reported with back end "scan".
+//
+//   chan-roles:<pkg>   every send / receive / close on a channel stored in a struct field of the package happens in a
+//                      function the contract file allows for that field and operation (`//@ chanrole T.f send:F,G recv:H`);
+//                      channel operations on channels of the same element type whose origin cannot be traced fail.
+//   start-sync:<pkg>   the interface method named in `//@ syncall I.M in F` has exactly one call site in the package, it is
+//                      in F, and it is a plain synchronous call (not go / defer).
+
+import (
+	"fmt"
+	"go/token"
+	"go/types"
+	"sort"
+	"strings"
+
+	"golang.org/x/tools/go/ssa"
+)
+
+func (v *Verifier) pkgFunctions(pkgName string) []*ssa.Function {
+	var out []*ssa.Function
+	for _, fn := range v.funcs {
+		root := fn
+		for root.Parent() != nil {
+			root = root.Parent()
+		}
+		if root.Pkg != nil && root.Pkg.Pkg.Name() == pkgName && strings.HasPrefix(root.Pkg.Pkg.Path(), repoModule) && fn.Blocks != nil {
+			out = append(out, fn)
+		}
+	}
+	sort.Slice(out, func(i, j int) bool { return out[i].String() < out[j].String() })
+	return out
+}
+
+// chanOrigin traces a channel value back to the struct field it was loaded from ("T.f"), or "".
+func chanOrigin(v ssa.Value) string {
+	for depth := 0; depth < 8; depth++ {
+		switch x := v.(type) {
+		case *ssa.UnOp:
+			if x.Op != token.MUL {
+				return ""
+			}
+			v = x.X
+		case *ssa.IndexAddr:
+			v = x.X
+		case *ssa.FieldAddr:
+			st := x.X.Type().Underlying().(*types.Pointer).Elem()
+			return ghostOwner(st) + "." + st.Underlying().(*types.Struct).Field(x.Field).Name()
+		case *ssa.Phi:
+			return ""
+		default:
+			return ""
+		}
+	}
+	return ""
+}
 
 func (v *Verifier) runScan(name string, results map[string]*ObResult) {
-	results["scan."+name] = &ObResult{Name: "scan." + name, Kind: "scan", Status: "failed", Clause: "unknown scan " + name, Fail: &Failure{Answers: map[string]string{}}}
+	kind, pkg, _ := strings.Cut(name, ":")
+	add := func(ob, clause string, ok bool) {
+		r := &ObResult{Name: "scan." + kind + "." + ob, Fn: pkg, Kind: "scan", Clause: clause, Status: "discharged", Instances: 1, Solvers: []string{"scan"}}
+		if !ok {
+			r.Status = "failed"
+			r.Fail = &Failure{Answers: map[string]string{"scan": "violated"}, Formula: clause}
+		}
+		results[r.Name] = r
+	}
+	switch kind {
+	case "chan-roles":
+		allowed := map[string]map[string]bool{} // "T.f/op" -> functions
+		var elemTypes []types.Type
+		for _, cr := range v.specs.ChanRoles {
+			for op, fns := range cr.Ops {
+				k := cr.Field + "/" + op
+				if allowed[k] == nil {
+					allowed[k] = map[string]bool{}
+				}
+				for _, f := range fns {
+					allowed[k][f] = true
+				}
+			}
+		}
+		found := map[string][]string{}
+		var bad []string
+		record := func(fn *ssa.Function, ch ssa.Value, op string) {
+			origin := chanOrigin(ch)
+			ct, _ := ch.Type().Underlying().(*types.Chan)
+			if origin == "" {
+				// untraceable: only a problem if the element type is one of the lane channels' element types
+				if ct != nil {
+					for _, et := range elemTypes {
+						if types.Identical(et, ct.Elem()) {
+							bad = append(bad, fmt.Sprintf("%s: %s on a channel of %s whose origin cannot be traced", fn.Name(), op, et))
+						}
+					}
+				}
+				return
+			}
+			short := origin[strings.Index(origin, ".")+1:]
+			k := short + "/" + op
+			found[k] = append(found[k], fn.Name())
+			if _, declared := allowed[short+"/send"]; !declared {
+				if _, d2 := allowed[short+"/recv"]; !d2 {
+					return // field has no declared roles
+				}
+			}
+			if !allowed[k][fn.Name()] {
+				bad = append(bad, fmt.Sprintf("%s performs %s on %s", fn.Name(), op, short))
+			}
+		}
+		fns := v.pkgFunctions(pkg)
+		// element types of the declared channel fields
+		for _, fn := range fns {
+			for _, b := range fn.Blocks {
+				for _, in := range b.Instrs {
+					if fa, ok := in.(*ssa.FieldAddr); ok {
+						st := fa.X.Type().Underlying().(*types.Pointer).Elem()
+						f := st.Underlying().(*types.Struct).Field(fa.Field)
+						short := ghostOwner(st)
+						short = short[strings.Index(short, ".")+1:] + "." + f.Name()
+						if _, d := allowed[short+"/send"]; d {
+							t := f.Type()
+							if sl, ok := t.Underlying().(*types.Slice); ok {
+								t = sl.Elem()
+							}
+							if ct, ok := t.Underlying().(*types.Chan); ok {
+								elemTypes = append(elemTypes, ct.Elem())
+							}
+						}
+					}
+				}
+			}
+		}
+		for _, fn := range fns {
+			for _, b := range fn.Blocks {
+				for _, in := range b.Instrs {
+					switch i := in.(type) {
+					case *ssa.Send:
+						record(fn, i.Chan, "send")
+					case *ssa.UnOp:
+						if i.Op == token.ARROW {
+							record(fn, i.X, "recv")
+						}
+					case *ssa.Select:
+						for _, s := range i.States {
+							if s.Dir == types.SendOnly {
+								record(fn, s.Chan, "send")
+							} else {
+								record(fn, s.Chan, "recv")
+							}
+						}
+					case ssa.CallInstruction:
+						if b, ok := i.Common().Value.(*ssa.Builtin); ok && b.Name() == "close" {
+							record(fn, i.Common().Args[0], "close")
+						}
+					}
+				}
+			}
+		}
+		var fk []string
+		for k, f := range found {
+			sort.Strings(f)
+			fk = append(fk, k+"="+strings.Join(uniqStrings(f), ","))
+		}
+		sort.Strings(fk)
+		add(pkg, fmt.Sprintf("channel roles in package %s: %s; violations: %v", pkg, strings.Join(fk, " "), bad), len(bad) == 0)
+	case "start-sync":
+		for _, sc := range v.specs.SyncCalls {
+			var sites []string
+			ok := true
+			for _, fn := range v.pkgFunctions(pkg) {
+				for _, b := range fn.Blocks {
+					for _, in := range b.Instrs {
+						ci, isCall := in.(ssa.CallInstruction)
+						if !isCall || !ci.Common().IsInvoke() {
+							continue
+						}
+						cc := ci.Common()
+						if cc.Method.Name() != sc.Method || !strings.HasSuffix(qualTypeName(cc.Value.Type()), "."+sc.Iface) {
+							continue
+						}
+						mode := "call"
+						switch in.(type) {
+						case *ssa.Go:
+							mode = "go"
+						case *ssa.Defer:
+							mode = "defer"
+						}
+						sites = append(sites, fn.Name()+":"+mode)
+						if fn.Name() != sc.In || mode != "call" {
+							ok = false
+						}
+					}
+				}
+			}
+			if len(sites) != 1 {
+				ok = false
+			}
+			add(sc.Iface+"."+sc.Method, fmt.Sprintf("%s.%s is called exactly once, synchronously, in %s; call sites: %v", sc.Iface, sc.Method, sc.In, sites), ok)
+		}
+	default:
+		results["scan."+name] = &ObResult{Name: "scan." + name, Kind: "scan", Status: "failed", Clause: "unknown scan " + name, Fail: &Failure{Answers: map[string]string{}}}
+	}
+}
+
+func uniqStrings(a []string) []string {
+	var out []string
+	for i, s := range a {
+		if i == 0 || s != a[i-1] {
+			out = append(out, s)
+		}
+	}
+	return out
 }
